@@ -99,9 +99,11 @@ type writerCallsExceeded struct{}
 func (x *dexec) libPanic(op, p string, hang bool) {
 	if hang {
 		x.fail("C06", "hang", "", "%s: %s (WindowSize %d, BufferSize %d)", op, p, x.ws, x.bs)
+		x.fail("C07", "not_accepted", "", "%s of a well-formed stream did not return: %s (WindowSize %d, BufferSize %d)", op, p, x.ws, x.bs)
 		x.abort("hang in " + op)
 	}
 	x.fail("C05", "panic", "", "%s panicked: %s", op, p)
+	x.fail("C07", "not_accepted", "", "%s of a well-formed stream panicked: %s (WindowSize %d, BufferSize %d)", op, p, x.ws, x.bs)
 	x.abort("panic in " + op + ": " + p)
 }
 
@@ -200,6 +202,7 @@ func (x *dexec) invariants() {
 		x.fail("C18", "sink_not_prefix", "", "writer received bytes that are not a prefix of the reference expansion (first difference at %d)", d)
 		x.fail("C17", "counts_vs_output", "", "output differs from the expansion implied by the reported counts at %d", d)
 		x.fail("C05", "state_after_reject", "", "output differs from the expansion of the reported (k,l) at %d", d)
+		x.fail("C07", "sink_differs", "", "the decoder accepted the stream but its output differs from the original bytes at %d", d)
 		x.abort("output mismatch")
 	}
 	if x.buf != nil {
@@ -685,6 +688,7 @@ func (x *dexec) writeBlock(blk lz.Block, firstBad int, kind string, retry bool) 
 			if k != len(call.Sequences) || Ltot != len(lits) {
 				x.fail("C17", "incomplete_without_error", "", "WriteBlock returned nil but consumed %d/%d sequences and %d/%d literals", K, len(seqs), Ltot, len(lits))
 				x.fail("C04", "incomplete_without_error", "", "WriteBlock returned nil but consumed %d/%d sequences and %d/%d literals", K, len(seqs), Ltot, len(lits))
+				x.fail("C07", "accepted_incomplete", "", "WriteBlock returned nil for a well-formed block but consumed only %d/%d sequences and %d/%d literals", K, len(seqs), Ltot, len(lits))
 			}
 			if x.wr.faults > fb {
 				x.checkWriterErr("WriteBlock", fb, err)
@@ -988,5 +992,6 @@ func (x *dexec) final() {
 		x.fail("C04", "final_drain", "", "after the final drain %d of %d written bytes were handed out", len(x.handed), len(x.ref))
 		x.fail("C18", "final_sink", "", "after the final successful Flush the writer has %d of %d bytes", len(x.handed), len(x.ref))
 		x.fail("C17", "final_drain", "", "reported counts imply %d bytes, %d came out", len(x.ref), len(x.handed))
+		x.fail("C07", "sink_differs", "", "after the final Flush the writer has %d of the %d original bytes", len(x.handed), len(x.ref))
 	}
 }
